@@ -405,32 +405,19 @@ func (P *Prog) persistingFns() map[*ssa.Function]bool {
 			if persisting[fn] {
 				continue
 			}
-			all := true
-			n := 0
-			for _, ret := range returnsOf(fn) {
-				if len(ret.Block().Preds) == 0 && ret.Block() != fn.Blocks[0] {
-					continue
+			// must actually contain a persisting instruction
+			has := false
+			eachInstr(fn, func(ins ssa.Instruction) {
+				if !has && isRenameLive(ins) {
+					has = true
 				}
-				if !mayBeSuccessReturn(fn, ret) {
-					continue
-				}
-				n++
-				if !mustPassBefore(fn, ret, isRenameLive) {
-					all = false
-				}
+			})
+			if !has {
+				continue
 			}
-			if all && n > 0 {
-				// must actually contain a persisting instruction
-				has := false
-				eachInstr(fn, func(ins ssa.Instruction) {
-					if isRenameLive(ins) {
-						has = true
-					}
-				})
-				if has {
-					persisting[fn] = true
-					changed = true
-				}
+			if all, _, n := successMustPass(fn, isRenameLive); all && n > 0 {
+				persisting[fn] = true
+				changed = true
 			}
 		}
 	}
